@@ -648,7 +648,7 @@ func c09Perturb(ctx *vfCtx, version string, like jv, state []PDU) bool {
 func c09GenEvent(t *rapid.T, version string, r c07Room, b c07Built, label string) vfBytes {
 	sender := rapid.SampledFrom(c07Users).Draw(t, label+"sender")
 	e := raEv{Sender: sender, Content: jv{K: 'o'}, Room: b.RoomID, Depth: 50, TS: 5000}
-	switch rapid.IntRange(0, 12).Draw(t, label+"kind") {
+	switch rapid.IntRange(0, 13).Draw(t, label+"kind") {
 	case 10:
 		// event types with rules of their own in some room versions: what they are judged by must be
 		// what StateNeededForAuth names for them
@@ -675,9 +675,13 @@ func c09GenEvent(t *rapid.T, version string, r c07Room, b c07Built, label string
 		target := rapid.SampledFrom(c07Users).Draw(t, label+"target")
 		e.Type, e.StateKey = "m.room.member", raSK(target)
 		e.Content = jobj("membership", jstr(rapid.SampledFrom([]string{"invite", "leave", "ban", "knock"}).Draw(t, label+"mem")))
-	case 5:
+	case 5, 13:
 		e.Type, e.StateKey = "m.room.member", raSK(sender)
 		e.Content = jobj("membership", jstr(rapid.SampledFrom([]string{"leave", "knock"}).Draw(t, label+"mem2")))
+		if m := r.Members[sender]; (m == "knock" || m == "invite") && rapid.IntRange(0, 2).Draw(t, label+"withdraw") > 0 {
+			// somebody who knocked (or was invited) withdraws: a leave judged by the sender's own membership
+			e.Content = jobj("membership", jstr("leave"))
+		}
 	case 6:
 		e.Type = "m.room.message"
 	case 7:
